@@ -11,6 +11,7 @@ package sym
 
 import (
 	"go/types"
+	"strconv"
 )
 
 type pipeBuf struct {
@@ -217,7 +218,26 @@ func init() {
 		b.p = normRope(append([]piece{}, r.p...))
 		return p
 	}
-	for _, m := range []string{"Read", "ReadByte", "ReadRune", "ReadString", "ReadBytes", "Next", "Truncate", "ReadFrom", "WriteTo", "UnreadByte", "UnreadRune", "Cap", "Available", "AvailableBuffer"} {
+	// ReadFrom: everything the reader still holds (the readers known to io.ReadAll), reader left at its end
+	intrinsics["(*bytes.Buffer).ReadFrom"] = func(fr *frame, args []value) value {
+		b := bufOf(fr, args[0])
+		rd, ok := args[1].(iface)
+		if !ok {
+			panic(abortPath{why: "bytes.Buffer.ReadFrom operand", kind: "unsupported"})
+		}
+		res := intrinsics["io.ReadAll"](fr, []value{rd}).(tuple)
+		r := toRope(res[0])
+		b.p = normRope(append(append([]piece{}, b.p...), r.p...))
+		n := ropeLen(r)
+		switch x := n.(type) {
+		case int:
+			return tuple{int64(x), nilErr()}
+		case symBV:
+			return tuple{x, nilErr()}
+		}
+		return tuple{int64(0), nilErr()}
+	}
+	for _, m := range []string{"Read", "ReadByte", "ReadRune", "ReadString", "ReadBytes", "Next", "Truncate", "WriteTo", "UnreadByte", "UnreadRune", "Cap", "Available", "AvailableBuffer"} {
 		m := m
 		intrinsics["(*bytes.Buffer)."+m] = func(fr *frame, args []value) value {
 			panic(abortPath{why: "bytes.Buffer." + m + " is outside the buffer model", kind: "unsupported"})
@@ -225,4 +245,69 @@ func init() {
 	}
 	intrinsics["bytes.NewBuffer"] = newBuf
 	intrinsics["bytes.NewBufferString"] = newBuf
+}
+
+// ---- strconv.Append* : the destination's bytes followed by the rendering (same pieces as Format*) ----
+func init() {
+	appendTo := func(dst value, r symStr) value {
+		d := toRope(dst)
+		return bytesValue(symStr{p: normRope(append(append([]piece{}, d.p...), r.p...))})
+	}
+	intrinsics["strconv.AppendInt"] = func(fr *frame, args []value) value {
+		base, ok := args[2].(int)
+		if !ok {
+			panic(abortPath{why: "strconv.AppendInt with symbolic base", kind: "unsupported"})
+		}
+		switch a := args[1].(type) {
+		case int64:
+			return appendTo(args[0], symStr{p: []piece{{k: pLit, lit: strconv.FormatInt(a, base)}}})
+		case symBV:
+			if base != 10 {
+				panic(abortPath{why: "AppendInt base", kind: "unsupported"})
+			}
+			return appendTo(args[0], symStr{p: []piece{{k: pItoa, t: a.t}}})
+		}
+		panic(abortPath{why: "strconv.AppendInt operand", kind: "unsupported"})
+	}
+	intrinsics["strconv.AppendUint"] = func(fr *frame, args []value) value {
+		base, ok := args[2].(int)
+		if !ok {
+			panic(abortPath{why: "strconv.AppendUint with symbolic base", kind: "unsupported"})
+		}
+		switch a := args[1].(type) {
+		case uint64:
+			return appendTo(args[0], symStr{p: []piece{{k: pLit, lit: strconv.FormatUint(a, base)}}})
+		case symBV:
+			if base != 10 {
+				panic(abortPath{why: "AppendUint base", kind: "unsupported"})
+			}
+			return appendTo(args[0], symStr{p: []piece{{k: pUtoa, t: a.t}}})
+		}
+		panic(abortPath{why: "strconv.AppendUint operand", kind: "unsupported"})
+	}
+	intrinsics["strconv.AppendBool"] = func(fr *frame, args []value) value {
+		b, ok := args[1].(bool)
+		if !ok {
+			panic(abortPath{why: "strconv.AppendBool of a symbolic bool", kind: "unsupported"})
+		}
+		return appendTo(args[0], symStr{p: []piece{{k: pLit, lit: strconv.FormatBool(b)}}})
+	}
+	intrinsics["strconv.AppendFloat"] = func(fr *frame, args []value) value {
+		c, okc := args[2].(uint8)
+		p, okp := args[3].(int)
+		bs, okb := args[4].(int)
+		if !okc || !okp || !okb {
+			panic(abortPath{why: "strconv.AppendFloat with symbolic format", kind: "unsupported"})
+		}
+		switch a := args[1].(type) {
+		case float64:
+			return appendTo(args[0], symStr{p: []piece{{k: pLit, lit: strconv.FormatFloat(a, c, p, bs)}}})
+		case symFP:
+			if p != -1 {
+				panic(abortPath{why: "AppendFloat with precision", kind: "unsupported"})
+			}
+			return appendTo(args[0], symStr{p: []piece{{k: pFtoa, t: a.t, fmtc: c}}})
+		}
+		panic(abortPath{why: "strconv.AppendFloat operand", kind: "unsupported"})
+	}
 }
